@@ -505,7 +505,7 @@ func hpRun(t *testing.T, sc *hpScenario) (res hpResult) {
 			w.ps[hpBystander] = []ma.Multiaddr{ma.StringCast("/ip4/8.8.4.4/tcp/4001")}
 		}
 		w.initial = false
-		self := hpRelayAddrs()[0] // our own address behind the relay
+		self := hpRelayAddrs()[0]         // our own address behind the relay
 		listen := func() []ma.Multiaddr { // a fresh slice each time: the service filters it in place
 			pub := ma.StringCast("/ip4/7.7.7.7/tcp/4001")
 			switch sc.Listen {
@@ -890,6 +890,7 @@ func hpCheck(sc *hpScenario, res *hpResult) (out []finding, st map[string]int) {
 func holepunchPart(t *testing.T, r *run.R) {
 	r.Assume("hole-punching part: the host under the real holepunch.Service is a fake that reproduces BasicHost.Connect/NewStream + swarm conn selection for the context options (force-direct, allow-limited, no-dial); a direct conn = remote address without /p2p-circuit and Stat().Limited false",
 		"hole-punching part: a conn that opens or closes at the same virtual instant as an observation is treated as concurrent with it (never a violation)")
+	r.Extra("holepunch_part_rule", "scenario hp/N = (shape: DirectConnect call / inbound relayed conn announced to the notifiee / inbound DCUtR stream / both; initial conns to the partner: none, limited, unlimited relay, direct, combinations, inbound or outbound; peerstore addresses; own listen addresses incl. relay ones or late; direct-dial timeout; addr filter; tracers; per coordination stream the remote's script: CONNECT with direct / mixed / relay-only / private / empty / garbage / foreign-/p2p / 30 addresses, or SYNC instead, garbage frame, oversize frame, silence, close, refusal, with reply delay; per Connect the dial outcome: ok, ok then close, fail, hang, fail or hang while an inbound direct conn lands, fail while another limited conn lands; 0-2 timed conn events); non-trivial: the service opened a coordination stream, handled an inbound one, or called Connect")
 	n := r.Pick(4000, 100000)
 	if os.Getenv("VERIF_RACE") == "1" {
 		n = r.Pick(2000, 20000)
@@ -926,13 +927,17 @@ func holepunchPart(t *testing.T, r *run.R) {
 		if st["hp_coordination_stream_calls"]+st["hp_inbound_streams_relayed"]+st["hp_inbound_streams_direct"]+st["hp_connect_calls"] > 0 {
 			r.Nontrivial(sc.ID)
 		}
-		sampleMu.Lock()
-		want := !sampled[sc.Shape] && st["hp_success_reports_checked"] > 0
+		// samples: one full initiator run and one full responder run that ended with a checked success report
+		small := len(sc.Actions) == 1 && len(res.Log) < 40 && st["hp_success_reports_checked"] > 0
+		want := small && (sc.Shape == "initiator" && st["hp_trace_success_EndHolePunch"] > 0 && st["hp_connect_msgs_with_relay_addrs"] > 0 ||
+			sc.Shape == "responder" && st["hp_responder_connects"] > 0 && st["hp_connect_msgs_with_relay_addrs"] > 0)
 		if want {
+			sampleMu.Lock()
+			want = !sampled[sc.Shape]
 			sampled[sc.Shape] = true
+			sampleMu.Unlock()
 		}
-		sampleMu.Unlock()
-		if want && (sc.Shape == "initiator" || sc.Shape == "responder") {
+		if want {
 			r.Sample(map[string]any{"scenario": sc, "log": res.Log})
 		}
 	})
